@@ -231,7 +231,7 @@ Section DropsGeneric.
       do 2 f_equal. lia.
   Qed.
 
-  Lemma drop_try_ok st fo p pb pg : rinv st -> ssl_ok p pb pg -> is_group pb pg -> pb < fo ->
+  Lemma drop_try_ok st fo p pb pg : rinv st -> ssl_ok p pb pg -> is_group pb pg -> pb <= fo ->
     rinv (c_drop_data_try bs st p) /\ (dangling_behind st fo -> dangling_behind (c_drop_data_try bs st p) fo).
   Proof.
     intros [I AS] OK G L. destruct (is_group_pos dated f _ _ G) as (P & _).
@@ -502,7 +502,7 @@ Section RunProofs.
   Lemma lr_disable_drop_inv l : lr_inv l -> lr_inv (lr_set_blk (b_disable_drop (l_blk l)) l).
   Proof.
     intros [I T]. split; [eapply lr_inv0_maps; [| | |exact I]; reflexivity|].
-    unfold lr_tot in *. cbn. destruct T as [T|(T1 & T2 & T3)]; [left; exact T|right; auto].
+    unfold lr_tot in *. cbn. destruct T as [T|[(T1 & KD & T2 & T3)|(T1 & KD)]]; [left; exact T|right; left; auto|right; right; auto].
   Qed.
 
   Lemma c_step_ok st o st' x : cinv st -> op_safe o -> c_step dated bs f st o = (st', x) ->
